@@ -13,10 +13,26 @@ type vComp struct {
 	text string
 }
 
+// the spellings of a METHOD property: any of them IS a METHOD property (the value is not looked at by the rule)
+var methodSpelling int
+
 func buildCal(method bool, comps []vComp) *ical.Calendar {
 	cal := ical.NewCalendar()
 	if method {
-		cal.Props.SetText(ical.PropMethod, "PUBLISH")
+		methodSpelling++
+		switch methodSpelling % 4 {
+		case 0:
+			cal.Props.SetText(ical.PropMethod, "PUBLISH")
+		case 1:
+			cal.Props.SetText(ical.PropMethod, "") // present with an empty value
+		case 2:
+			cal.Props.SetText(ical.PropMethod, "REQUEST")
+		default:
+			p := ical.NewProp(ical.PropMethod)
+			p.Params.Set("X-P", "q")
+			p.Value = "x-custom"
+			cal.Props.Set(p)
+		}
 	}
 	for _, c := range comps {
 		comp := &ical.Component{Name: c.name, Props: make(ical.Props)}
